@@ -202,6 +202,11 @@ def observe(ctx, case, x, dx, srep, nrm, exact_ranks, eps, rmax, label, caps_wri
     # numpy scalars are accepted for eps and for a scalar rmax
     npk = case.get('seed', 0) % 5 == 3
     eps_a = np.float64(eps) if npk else eps
+    if case.get('seed', 0) % 6 == 4 and eps > 0:
+        # a numpy float32 scalar is accepted too; the tolerance the library is given is then the float32 value
+        eps_a = np.float32(eps)
+        eps = float(eps_a)
+        ctx.count('eps:numpy-float32')
     rmax_a = np.int64(rmax) if (npk and isinstance(rmax, int)) else rmax
     if rmax is None:
         y = ctx.lib('round', lambda t: t.round(eps_a), x)
@@ -260,6 +265,14 @@ def observe(ctx, case, x, dx, srep, nrm, exact_ranks, eps, rmax, label, caps_wri
 
 def prep(case, ctx, g):
     x = build(case, ctx, g)
+    # overall magnitude of the operand (the bound is relative): 1e-15 and 1e25 for the double-precision dtypes, every 5th / 7th case
+    mag = 1.0
+    if x.cores[0].dtype in (torch.float64, torch.complex128) and case['gen'] == 'random':
+        mag = 1e-15 if case['seed'] % 5 == 1 else (1e25 if case['seed'] % 7 == 2 else 1.0)
+    if mag != 1.0:
+        import torchtt
+        x = torchtt.TT([c * mag if k_ == 0 else c for k_, c in enumerate(x.cores)])
+    ctx.count('operand-magnitude:%g' % mag)
     dx = dn.D(x)
     d = len(x.N)
     modes = [m * n for m, n in zip(x.M, x.N)] if x.is_ttm else list(x.N)
